@@ -214,6 +214,43 @@ TABLE = [
      {"thr_min": "fl", "thr_max": "fl"}, {"np.max(prob_threshold_coords)": "thr_max", "np.min(prob_threshold_coords)": "thr_min"}),
     ("risk_assessment_weights", P + "emerging/risk_matrix.py", "weights_from_warning_scaling", ["w_min"], 0, {"w_min": "fl"},
      {"np.min(assessment_weights)": "w_min"}),
+    # ---- added after the guard-site audit (tools/c20_audit.py, notes/C20.md): enumerated options, counts, min_nonnan
+    ("fill_cdf_method", P + "processing/cdf/cdf_functions.py", "fill_cdf", ["method"], 0, {"method": "str"}, {}),
+    ("fill_cdf_min_nonnan_other", P + "processing/cdf/cdf_functions.py", "fill_cdf", ["min_nonnan", "method"], 0,
+     {"min_nonnan": "fl", "method": "str"}, {}),
+    ("fill_cdf_min_nonnan_linear", P + "processing/cdf/cdf_functions.py", "fill_cdf", ["min_nonnan", "method"], 1,
+     {"min_nonnan": "fl", "method": "str"}, {}),
+    ("cdf_decreasing_tolerance", P + "probability/checks.py", "check_nan_decreasing_inputs", ["tolerance"], 0, {"tolerance": "fl"}, {}),
+    ("crps_cdf_fcst_fill_method", P + "probability/crps_impl.py", "check_crps_cdf_inputs", ["fcst_fill_method"], 0,
+     {"fcst_fill_method": "str"}, {}),
+    ("crps_cdf_weight_fill_method", P + "probability/crps_impl.py", "check_crps_cdf_inputs", ["has_weight", "threshold_weight_fill_method"], 0,
+     {"has_weight": "bool", "threshold_weight_fill_method": "str"}, {"threshold_weight is not None": "has_weight"}),
+    ("crps_cdf_integration_method", P + "probability/crps_impl.py", "check_crps_cdf_inputs", ["integration_method"], 0,
+     {"integration_method": "str"}, {}),
+    ("crps_cdf_threshold_count", P + "probability/crps_impl.py", "check_crps_cdf_inputs", ["n_thresholds"], 0,
+     {"n_thresholds": "fl"}, {"len(fcst[threshold_dim])": "n_thresholds"}),
+    ("crps_cdf_brier_fcst_fill_method", P + "probability/crps_impl.py", "check_crps_cdf_brier_inputs", ["fcst_fill_method"], 0,
+     {"fcst_fill_method": "str"}, {}),
+    ("crps_ensemble_method", P + "probability/crps_impl.py", "crps_for_ensemble", ["method"], 0, {"method": "str"}, {}),
+    ("tail_tw_crps_tail", P + "probability/crps_impl.py", "tail_tw_crps_for_ensemble", ["tail"], 0, {"tail": "str"}, {}),
+    ("brier_fcst_range_dataset", P + "probability/brier_impl.py", "brier_score", ["fcst_max", "fcst_min"], 0,
+     {"fcst_max": "fl", "fcst_min": "fl"},
+     {"fcst.to_array().max().values.item()": "fcst_max", "fcst.to_array().min().values.item()": "fcst_min"}),
+    ("dm_method", P + "stats/statistical_tests/diebold_mariano_impl.py", "diebold_mariano", ["method"], 0, {"method": "str"}, {}),
+    ("dm_statistic_distribution", P + "stats/statistical_tests/diebold_mariano_impl.py", "diebold_mariano", ["statistic_distribution"], 0,
+     {"statistic_distribution": "str"}, {}),
+    ("risk_threshold_assignment", P + "emerging/risk_matrix.py", "_check_risk_matrix_score_inputs", ["threshold_assignment"], 0,
+     {"threshold_assignment": "str"}, {}),
+    ("risk_scaling_min", P + "emerging/risk_matrix.py", "weights_from_warning_scaling", ["s_min"], 0, {"s_min": "fl"},
+     {"np.min(scaling_matrix)": "s_min"}),
+    ("risk_scaling_rows", P + "emerging/risk_matrix.py", "weights_from_warning_scaling", ["row_step_min"], 0, {"row_step_min": "fl"},
+     {"np.min(np.diff(scaling_matrix, axis=1))": "row_step_min"}),
+    ("risk_scaling_columns", P + "emerging/risk_matrix.py", "weights_from_warning_scaling", ["col_step_max"], 0, {"col_step_max": "fl"},
+     {"np.max(np.diff(scaling_matrix, axis=0))": "col_step_max"}),
+    ("risk_assessment_weights_count", P + "emerging/risk_matrix.py", "weights_from_warning_scaling", ["n_weights", "s_max"], 0,
+     {"n_weights": "fl", "s_max": "fl"}, {"len(assessment_weights)": "n_weights", "np.max(scaling_matrix)": "s_max"}),
+    ("firm_threshold_count", P + "categorical/multicategorical_impl.py", "_check_firm_inputs", ["n_thresholds"], 0,
+     {"n_thresholds": "fl"}, {"len(categorical_thresholds)": "n_thresholds"}),
 ]
 
 LEAN_TY = {"fl": "Fl", "bool": "Bool", "optfl": "Option Fl", "str": "String"}
@@ -228,6 +265,32 @@ def module_string_constants(tree):
     return out
 
 
+def select_guard(trees, rel, func, names, ordinal, params, subst):
+    """the `if …: raise` statement a TABLE row stands for (and its test after substitution / quantifier stripping)"""
+    if rel not in trees:
+        trees[rel] = parse(rel)
+    fn = find_def(trees[rel], func)
+    cands = []
+    for g in guard_ifs(fn):
+        t = copy.deepcopy(g.test)
+        t = Subst(subst).visit(t)
+        try:
+            t = Strip().visit(t)
+        except Unsupported as u:
+            if names_of(g.test) >= frozenset(k for k in names if k in params and k not in subst.values()):
+                cands.append((g, u))   # keeps the ordinal; reported below if it is the selected guard
+            continue
+        ast.fix_missing_locations(t)
+        if names_of(t) - set(module_string_constants(trees[rel])) == frozenset(names):
+            cands.append((g, t))
+    if len(cands) <= ordinal:
+        raise Unsupported(f"guard over {sorted(names)} #{ordinal} not found in {func}")
+    g, t = cands[ordinal]
+    if isinstance(t, Unsupported):
+        raise t
+    return g, t
+
+
 def generate():
     status = {}
     out = [HEADER.format(src="the guard clauses of the C20 functions (see tools/gen/Guards.py TABLE)", ns="Guards")]
@@ -236,27 +299,8 @@ def generate():
     rows = []
     for name, rel, func, names, ordinal, params, subst in TABLE:
         try:
-            if rel not in trees:
-                trees[rel] = parse(rel)
+            g, t = select_guard(trees, rel, func, names, ordinal, params, subst)
             fn = find_def(trees[rel], func)
-            cands = []
-            for g in guard_ifs(fn):
-                t = copy.deepcopy(g.test)
-                t = Subst(subst).visit(t)
-                try:
-                    t = Strip().visit(t)
-                except Unsupported as u:
-                    if names_of(g.test) >= frozenset(k for k in names if k in params and k not in subst.values()):
-                        cands.append((g, u))   # keeps the ordinal; reported below if it is the selected guard
-                    continue
-                ast.fix_missing_locations(t)
-                if names_of(t) - set(module_string_constants(trees[rel])) == frozenset(names):
-                    cands.append((g, t))
-            if len(cands) <= ordinal:
-                raise Unsupported(f"guard over {sorted(names)} #{ordinal} not found in {func}")
-            g, t = cands[ordinal]
-            if isinstance(t, Unsupported):
-                raise t
             env = Env()
             for k, ty in params.items():
                 env.types[k] = ty
@@ -285,17 +329,30 @@ def generate():
         except (Unsupported, KeyError, StopIteration, AttributeError, IndexError, FileNotFoundError) as u:
             status[name] = f"inapplicable: {type(u).__name__}: {u}"
     # driver table: name -> guard applied to a list of optional numbers (None / absent = none; Bool = truthiness of the number)
-    entries = []
+    # guards with a string parameter go to `tableS` (strings first, in parameter order, then the numbers)
+    entries, entries_s = [], []
     for name, params, exc in rows:
-        if any(ty == "str" for ty in params.values()):
-            continue
-        pats = ", ".join(f"x{i}" for i in range(len(params)))
+        has_str = any(ty == "str" for ty in params.values())
+        nums = [k for k, ty in params.items() if ty != "str"]
+        strs = [k for k, ty in params.items() if ty == "str"]
         args = []
-        for i, ty in enumerate(params.values()):
-            args.append({"fl": f"(x{i}.getD Fl.nan)", "optfl": f"x{i}", "bool": f"(Fl.truthyOpt x{i})"}[ty])
-        out.append(f"def ad_{name} : List (Option Fl) → Option Bool\n  | [{pats}] => some ({name} {' '.join(args)})\n  | _ => none\n")
-        entries.append(f'  ("{name}", ad_{name})')
+        for k, ty in params.items():
+            if ty == "str":
+                args.append(f"s{strs.index(k)}")
+            else:
+                i = nums.index(k)
+                args.append({"fl": f"(x{i}.getD Fl.nan)", "optfl": f"x{i}", "bool": f"(Fl.truthyOpt x{i})"}[ty])
+        pats = ", ".join(f"x{i}" for i in range(len(nums)))
+        if has_str:
+            spats = ", ".join(f"s{i}" for i in range(len(strs)))
+            out.append(f"def ad_{name} : List String → List (Option Fl) → Option Bool\n  | [{spats}], [{pats}] => some ({name} {' '.join(args)})\n"
+                       f"  | _, _ => none\n")
+            entries_s.append(f'  ("{name}", ad_{name})')
+        else:
+            out.append(f"def ad_{name} : List (Option Fl) → Option Bool\n  | [{pats}] => some ({name} {' '.join(args)})\n  | _ => none\n")
+            entries.append(f'  ("{name}", ad_{name})')
     out.append("def table : List (String × (List (Option Fl) → Option Bool)) := [\n" + ",\n".join(entries) + "]\n")
+    out.append("def tableS : List (String × (List String → List (Option Fl) → Option Bool)) := [\n" + ",\n".join(entries_s) + "]\n")
     out.append("def exceptions : List (String × String) := [" + ", ".join(f'("{n}", "{e}")' for n, _, e in rows) + "]\n")
     out.append("end SV.Gen.Guards\n")
     st = write_if_changed("Guards", "\n".join(out))
